@@ -123,11 +123,15 @@ func (c *Ctx) roles(r *Report) *Roles {
 			if !ok {
 				return
 			}
-			mc, ok := g.Call.Value.(*ssa.MakeClosure)
-			if !ok {
+			var fn *ssa.Function
+			if mc, ok := g.Call.Value.(*ssa.MakeClosure); ok {
+				fn = mc.Fn.(*ssa.Function)
+			} else if s := g.Call.StaticCallee(); s != nil && c.inModule(s) && len(s.Blocks) > 0 {
+				fn = s // `go c.run()`: the worker is a method or function of its own
+			}
+			if fn == nil {
 				return
 			}
-			fn := mc.Fn.(*ssa.Function)
 			if fv := recvChanField(fn); fv != nil {
 				ro.Worker = fn
 				ro.WorkerOwner = nt
